@@ -214,6 +214,7 @@ func runSessionInProcess(sp sessionSpec) (res sessionResult) {
 		return res
 	}
 	var stderr bytes.Buffer
+	clientStderr := "" // of a stock client, kept apart from the daemon's log
 	ctx, cancel := context.WithCancel(context.Background())
 	defer cancel()
 	var err error
@@ -235,7 +236,7 @@ func runSessionInProcess(sp sessionSpec) (res sessionResult) {
 		cmd := rsynccmd.Command("rsync", args...)
 		cmd.Stdout, cmd.Stderr, cmd.DontRestrict = io.Discard, &stderr, true
 		_, err = cmd.Run(ctx)
-	case "pull", "push":
+	case "pull", "push", "tridgepull":
 		mod := rsyncd.Module{Name: "mod", Path: sp.SrcRoot}
 		if sp.Arr == "pull" && sp.FaultyDir != "" {
 			mod = rsyncd.Module{Name: "mod", FS: faultFS{os.DirFS(sp.SrcRoot), sp.FaultyDir}}
@@ -268,6 +269,20 @@ func runSessionInProcess(sp sessionSpec) (res sessionResult) {
 				args = append(args, filepath.Join(sp.SrcRoot, s)+trailing(s))
 			}
 			args = append(args, url+sp.ModSubdir)
+		}
+		if sp.Arr == "tridgepull" {
+			// the stock rsync client pulls from the daemon under test
+			targs := append([]string{}, sp.Args...)
+			for _, s := range sp.Srcs {
+				targs = append(targs, url+s)
+			}
+			targs = append(targs, sp.Dest)
+			c := exec.CommandContext(ctx, "rsync", targs...)
+			var cliErr bytes.Buffer
+			c.Stdout, c.Stderr = io.Discard, &cliErr
+			err = c.Run()
+			clientStderr = tailStr(cliErr.String(), 600)
+			break
 		}
 		cmd := rsynccmd.Command("rsync", args...)
 		cmd.Stdout, cmd.Stderr, cmd.DontRestrict = io.Discard, &stderr, true
@@ -336,7 +351,7 @@ func runSessionInProcess(sp sessionSpec) (res sessionResult) {
 	default:
 		err = fmt.Errorf("unknown arrangement %q", sp.Arr)
 	}
-	res.Stderr = tailStr(stderr.String(), 1500)
+	res.Stderr = tailStr(stderr.String(), 1500) + clientStderr
 	if err != nil {
 		res.Err, res.Outcome = err.Error(), "error"
 	} else {
